@@ -30,7 +30,7 @@ def seedcount():
     ms = [json.load(open(f)) for f in sorted(glob.glob(os.path.join(HERE, "seeded", "*", "meta.json")))]
     first = [m["id"] for m in ms if re.search(r"\b(missed|MISSED|UNDECIDED|engine error|ENGINE-ERROR|mis-reported|brittle|textual AST shape|for the wrong reason)", m["result"])]
     bounded_only = [m["id"] for m in ms if re.search(r"bounded stand-in only|by the bounded stand-in \(", m["result"])]
-    return ("%d seeded changes in total (five rounds); caught by the quick tier of the property's check: all. Missed, undecided or "
+    return ("%d seeded changes in total (six rounds of breaking changes); caught by the quick tier of the property's check: all. Missed, undecided or "
             "reported for the wrong reason by the first version of the check, and the reason for a strengthening: %d (%s). Seen by the "
             "bounded part only: %d (%s)." % (len(ms), len(first), ", ".join(first), len(bounded_only), ", ".join(bounded_only)))
 
